@@ -10,3 +10,15 @@ pub(crate) fn verif_multinomial(probs: &[f64], rng: &mut impl rand::Rng) -> usiz
     use rand_distr::Distribution;
     multinomial::Multinomial::new(probs).sample(rng)
 }
+
+#[cfg(feature = "verif")]
+pub(crate) fn verif_chance_counts(probs: &[f64], draws: u64) -> Vec<u64> {
+    let mut sampler = data::SampledChance::new(probs);
+    let mut counts = vec![0; probs.len()];
+    for pass in 1..=draws {
+        crate::verif::begin_pass(pass, 0);
+        sampler.reset();
+        counts[sampler.sample()] += 1;
+    }
+    counts
+}
